@@ -150,7 +150,7 @@ pub fn gen(rng: &mut ChaCha20Rng, n: usize, thorough: bool) -> Vec<Case> {
             let h = c01::rheader(rng, &mut tags);
             out.push(rename(c01::mk("header", &ref_header_vec(&h), tags, true)));
         } else {
-            let big = thorough && rng.gen_range(0..4) == 0; let tx = rtx(rng, Feat { big, no_witness: false }, &mut tags);
+            let big = thorough && rng.gen_range(0..4) == 0; let tx = rtx_stray(rng, Feat { big, no_witness: false }, &mut tags);
             let nt = !tx.input.is_empty() || !tx.output.is_empty();
             out.push(rename(c01::mk("tx", &ref_tx(&tx), tags, nt)));
         }
